@@ -330,6 +330,8 @@ def _operand(s):
         return ('const', _const(s[6:].strip()))
     if re.match(r"^[A-Za-z_][\w:<>', ]*$", s):
         return ('const', ('path', s))   # fn item / tuple-struct constructor used as a value
+    if re.match(r"^<[\w:<>&', \[\]]+ as [\w:<>&', \[\]]+>::\w+(::<.*>)?$", s):
+        return ('const', ('path', s))   # trait method item used as a value (e.g. Option::map(PathBuf::from))
     raise Unsupported('operand: ' + s)
 
 
